@@ -210,11 +210,89 @@ fn compare_variants(
     true
 }
 
+/// one parser object, re-sorted between instantiations: every stage must give the definitional answers
+/// and (C09) every stored handle must denote its statement's condition
+pub fn reused_parser_check(rep: &mut Report, case: &crate::sem::SmallCase, rng: &mut Rng, case_seed: u64) -> bool {
+    let mut sorts = vec![Sort::None];
+    for _ in 0..rng.range(1, 3) {
+        sorts.push(*rng.pick(&[Sort::Lexi, Sort::Alnum, Sort::Lexi]));
+    }
+    let replay = json!({"property": "c10", "case_seed": case_seed.to_string(), "text": case.text, "reused_parser_sorts": sorts.iter().map(|s| s.name()).collect::<Vec<_>>()});
+    let stages = match reused_parser_stages(&case.text, &sorts, case.bio_ok) {
+        Ok(s) => s,
+        Err(e) => {
+            rep.violation("reused-parser-build", e.describe(), replay);
+            return false;
+        }
+    };
+    let want_g = vec![case.sem.grounded()];
+    let want_c = sorted(case.sem.complete());
+    let want_s = sorted(case.sem.stable());
+    for (k, st) in stages.iter().enumerate() {
+        rep.count("reused_parser_stages", 1);
+        let Some(perm) = perm_of(&st.names, &case.g) else {
+            rep.violation("names-not-a-permutation", format!("stage {} {:?}", k, st.names), replay);
+            return false;
+        };
+        for (sets, want, what) in [
+            (st.grounded.iter().map(|(n, g)| (*n, vec![g.clone()])).collect::<Vec<_>>(), &want_g, "grounded"),
+            (st.complete.clone(), &want_c, "complete"),
+            (st.stable.clone(), &want_s, "stable"),
+        ] {
+            for (name, models) in sets {
+                let got = sorted_set(&models, &perm);
+                if got != *want {
+                    rep.violation(
+                        "reused-parser-changes-answer",
+                        format!(
+                            "stage {} ({}) of one re-sorted parser: {} {} = {:?}, definition {:?}",
+                            k, st.sort.name(), name, what,
+                            got.iter().map(|m| show_vals(m)).collect::<Vec<_>>(),
+                            want.iter().map(|m| show_vals(m)).collect::<Vec<_>>()
+                        ),
+                        replay,
+                    );
+                    return false;
+                }
+            }
+        }
+        // stored handles denote the written conditions (the C09 walk), native and bridged
+        for (ac, nodes, which) in [(&st.native_ac, &st.native_nodes, "native"), (&st.bridged_ac, &st.bridged_nodes, "bridged")] {
+            if ac.is_empty() {
+                continue;
+            }
+            let n = case.g.n;
+            let mut inv = vec![0usize; n];
+            for (j, o) in perm.iter().enumerate() {
+                inv[*o] = j;
+            }
+            for (j, h) in ac.iter().enumerate() {
+                for a in 0..(1usize << n) {
+                    let got = walk(nodes, *h, &|i| (a >> i) & 1 == 1);
+                    let want = case.g.ac[perm[j]].eval(&|o: usize| (a >> inv[o]) & 1 == 1);
+                    if got != Ok(want) {
+                        rep.violation(
+                            "reused-parser-handle-differs",
+                            format!("stage {} ({}), {} object: handle of statement {:?} does not denote its condition", k, st.sort.name(), which, case.g.labels[perm[j]]),
+                            replay,
+                        );
+                        return false;
+                    }
+                }
+            }
+        }
+    }
+    true
+}
+
 pub fn c10_case(cfg: &Cfg, rep: &mut Report, case_seed: u64) {
     let nm = cfg.get_usize("nmax", if cfg.thorough { 7 } else { 5 });
     let case = small_case(case_seed, nm);
     let mut rng = Rng::new(case_seed ^ 0xC10);
     rep.evaluations += 1;
+    if !reused_parser_check(rep, &case, &mut rng, case_seed) {
+        return;
+    }
     let nvariants = rng.range(3, 5);
     let mut all: Vec<(String, Answers)> = Vec::new();
     let mut texts = Vec::new();
